@@ -38,6 +38,9 @@ func isCallTo(v ssa.Value, id string) *ssa.Call {
 }
 
 func checkC01(p *load.Program, r *kit.Report) {
+	importRules(p, r, "C11", "the header reported for a pruned height is read from the files saveMainBranch wrote: their layout must be what the readers compute", 3, nil, "MAIN-FILE-SHAPE")
+	importRules(p, r, "C17", "MarkHeaderInvalid removes branches: the tip must be re-selected from what is left on every path", 1,
+		func(o *kit.Obligation) bool { return strings.Contains(o.Construct, "reselect-after-trim") }, "MUST-PASS")
 	importRules(p, r, "C11", "Clean saves a side branch and prunes it from memory: what the repository reports for pruned heights afterwards is what Branch.Save wrote", 2,
 		func(o *kit.Obligation) bool { return strings.HasPrefix(o.Construct, "Branch.Save") }, "MERGE-SHAPE")
 	r.NotDecided = "that the tree built by a particular history has the cumulative work a model assigns; arrival-order independence; the effect of Clean/Save/Load in between (C10/C11); numerical work values."
